@@ -103,7 +103,9 @@ func candidates(c *EvalCase) []*EvalCase {
 	}
 	for i := range c.Store.Flags {
 		i := i
-		add(func(n *EvalCase) { n.Store.Flags = append(append([]WFlag{}, n.Store.Flags[:i]...), n.Store.Flags[i+1:]...) })
+		add(func(n *EvalCase) {
+			n.Store.Flags = append(append([]WFlag{}, n.Store.Flags[:i]...), n.Store.Flags[i+1:]...)
+		})
 	}
 	for i := range c.Store.Segments {
 		i := i
